@@ -59,20 +59,30 @@ func (c *verifHookRLCache) Len() int { return len(c.keys) }
 // is answered from a verdict computed with the old rules, also when a query runs
 // concurrently with the refresh.
 //
-//verif:harness name=H12e-rulelist-refresh tier=quick,thorough bounds="a refreshable rule list whose new text drops (or adds) the rule for the queried host; one query running concurrently with the refresh, started at the refresh's cache clear or the refresh started at the query's cache lookup / update (either thread may run first); then a query after both have finished" reach=done,concurrent maxpaths=20000 switches=0
+//verif:harness name=H12e-rulelist-refresh tier=quick,thorough bounds="a refreshable rule list whose new text drops (or adds) the rule for the queried host, or whose old text has no rules at all; a query before the refresh, or one query running concurrently with the refresh, started at the refresh's cache clear or the refresh started at the query's cache lookup / update (either thread may run first); then a query after both have finished" reach=done,concurrent,sequential maxpaths=20000 switches=0
 //verif:assume threads switch only when blocked, finished or at the harness yield inside the cache stub
 func VerifC12RuleListRefresh() {
-	oldHas := verifChoice(2) == 1
+	oldKind := verifChoice(3)
+	oldHas := oldKind == 1
 	oldText, newText := "||blocked.example^\n", "||other.example^\n"
-	if !oldHas {
+	switch oldKind {
+	case 0:
 		oldText, newText = newText, oldText
+	case 2:
+		// a version without any rule (comments only), then one with the rule
+		oldText, newText = "! a header without rules\n", oldText
 	}
 	cache := &verifHookRLCache{}
 	f := verifNewRefreshableList(oldText, newText, cache)
 	ip := netip.MustParseAddr("198.51.100.7")
 	ctx := context.Background()
 
-	switch verifChoice(3) {
+	switch verifChoice(4) {
+	case 3: // nothing concurrent: a query before the refresh, then the refresh
+		_ = f.DNSResult(ip, "", "blocked.example", dns.TypeA, false)
+		err := f.Refresh(ctx, false)
+		verifAssert("refresh-succeeds", err == nil)
+		verifReach("sequential")
 	case 0: // a query sneaks in while the refresh is clearing the cache
 		cache.hookAt = "clear"
 		cache.hook = func() {
